@@ -5,6 +5,7 @@ import common
 
 PROPS_B = "RotoV.Props.C10B"
 PROPS_A = "RotoV.Props.C10"  # arithmetic trap theorems (another builder's file)
+PROPS_C = "RotoV.Props.C10C"  # list built-ins under contention (lock events of src/value/list.rs)
 
 
 def search(ctx):
@@ -70,8 +71,9 @@ def model_search(ctx):
 
 
 def run(ctx):
-    ctx.extract(["optables", "c10builtins"])
+    ctx.extract(["optables", "c10builtins", "c10locks"])
     ctx.prove(PROPS_B, extra_modules=["RotoV.Lemmas.Builtins", "RotoV.Model.Builtins", "RotoV.Model.RustStd", "RotoV.Model.Clif"])
+    ctx.prove(PROPS_C, extra_modules=["RotoV.Model.MutexPanic"], extra_targets=())  # independent of the driver
     if os.path.exists(os.path.join(common.LEAN, *PROPS_A.split(".")) + ".lean"):
         ctx.prove(PROPS_A, extra_modules=["RotoV.Model.Clif", "RotoV.Model.RustStd"])
     if ctx.build_harness("c10"):
@@ -82,6 +84,10 @@ def run(ctx):
         "std (`str` methods, `Vec`, allocator, `Mutex`) and inetnum 0.1.1 behave as read in RotoV/Model/Builtins.lean "
         "(`str::get`, slice indexing, `splitn`, `lines`, `repeat`, `Prefix::new_relaxed`); every modelled result is "
         "compared with the real built-in on all generated cases",
+        "`std::sync::Mutex` as read in RotoV/Model/MutexPanic.lean (`lock` blocks on contention and fails only when "
+        "poisoned, `try_lock` fails while anyone holds the mutex, `unwrap`/`expect` of an `Err` panic); assumption: no "
+        "host code panics while holding a list's lock (mutexes start unpoisoned); the contention cases of the worker "
+        "oracle sample interleavings (every list built-in against a host `to_vec` holder and against itself on 4 threads)",
         "partial: an abort raised inside std or the allocator (not expressible as an argument-validation panic) is "
         "visible only to the worker oracle; memory exhaustion (`repeat` beyond ~1 MB) is a documented limit and is not generated",
     ]
@@ -89,7 +95,9 @@ def run(ctx):
         level="proof",
         rule="a class is a distinct (operator, integer type, operand class, outcome) for the five integer operators on "
              "boundary x boundary + random operand pairs, or a distinct (built-in, argument class, outcome kind) for "
-             "all 93 registered built-ins on edge arguments; outcome = returned / value kind / terminating signal",
+             "all 93 registered built-ins on edge arguments (lists: built in the script and passed in by the host, "
+             "empty / singleton / many), or a distinct (list built-in, element type, contention class, outcome) for the "
+             "contention cases; outcome = returned / value kind / terminating signal",
         search=search,
     )
 
